@@ -1,11 +1,11 @@
 package verifsim
 
 import (
-	"os"
 	"bytes"
 	"context"
 	"encoding/json"
 	"fmt"
+	"os"
 	"time"
 
 	"github.com/invopop/gobl"
